@@ -193,13 +193,15 @@ pub fn run(report: &Report, thorough: bool) -> Evidence {
     let tiny = fixture("tiny_db");
     let samples = Samples::new(8);
     // ---- the fault list ----
-    let pool: Vec<(&str, &str)> = vec![("as", "\u{0986}\u{09B6}"), ("a", "\u{09BE}"), (":", ""), ("ser", "\u{09B8}\u{09C7}\u{09B0}")];
+    // (the last entry is a raw English choice - value == key - as the engine writes it when the typed text itself is chosen
+    // with the English option on; it is read back here under configurations with that option off as well)
+    let pool: Vec<(&str, &str)> = vec![("as", "\u{0986}\u{09B6}"), ("a", "\u{09BE}"), (":", ""), ("ser", "\u{09B8}\u{09C7}\u{09B0}"), ("as", "as")];
     let max_entries = if thorough { 3 } else { 2 };
     let mut stores: Vec<String> = vec![];
     for mask in 1u32..(1 << pool.len()) {
         let idxs: Vec<usize> = (0..pool.len()).filter(|i| mask & (1 << i) != 0).collect();
-        if idxs.len() > max_entries {
-            continue;
+        if idxs.len() > max_entries || (mask & 1 != 0 && mask & 16 != 0) {
+            continue; // (entries 0 and 4 have the same key)
         }
         for p in permutations(idxs.len()) {
             let entries: Vec<(&str, &str)> = p.iter().map(|&j| pool[idxs[j]]).collect();
